@@ -13,22 +13,37 @@ inductive Item where
   | datetime (x : PyVal)
   deriving DecidableEq, Repr
 
-/-- compiled.pyx:67: `isinstance(item, list) and len(item) == 2 and item[0] == "__datetime__"`. -/
+/-- compiled.pyx:67: `isinstance(item, list) and len(item) == 2 and item[0] == "__datetime__"`, with
+the length, the index and the marker text extracted from the source. This is the **exact form the
+property excludes** from the round trip. -/
 def isReserved : PyVal → Bool
-  | .list [.str s, _] => s == "__datetime__"
+  | .list xs =>
+    xs.length == Gen.Row.reservedLen &&
+      (match xs[Gen.Row.reservedIdx]? with
+       | some (.str s) => s == Gen.Row.reservedMarker
+       | _ => false)
   | _ => false
 
-/-- compiled.pyx:66-70. `datetime.fromtimestamp(x)` needs a number (`TypeError` otherwise; range
-errors of the platform's `fromtimestamp` are outside the model, the harness stays inside). -/
-def post : PyVal → Option Item
-  | .list [.str s, x] =>
-    if s == "__datetime__" then
-      match x with
-      | .int _ => some (.datetime x)
-      | .float _ => some (.datetime x)
-      | _ => none
-    else some (.val (.list [.str s, x]))
-  | v => some (.val v)
+/-- What `datetime.fromtimestamp` accepts: a number (`bool` is an `int`); anything else is a
+`TypeError`. Range errors of the platform's `fromtimestamp` are outside the model (the harness
+stays inside the safe range). -/
+def isNumber : PyVal → Bool
+  | .int _ => true
+  | .float _ => true
+  | .bool _ => true
+  | _ => false
+
+/-- compiled.pyx:66-70: a reserved item becomes `datetime.fromtimestamp(item[1])`, every other item
+is kept. -/
+def post (v : PyVal) : Option Item :=
+  if isReserved v then
+    match v with
+    | .list xs =>
+      match xs[Gen.Row.reservedArg]? with
+      | some x => if isNumber x then some (.datetime x) else none
+      | none => none
+    | _ => none
+  else some (.val v)
 
 /-- `packb(tuple(self), …)` (orso/row.py:162): the row is one array. -/
 def packRow (row : List PyVal) : Option RowBytes.Bytes := packb (.list row)
